@@ -1602,3 +1602,50 @@ def engine_traces(cases):
             r = dict(err_info(e), id=c["id"], crash=True, log=getattr(e, "partial_log", []))
         out.append(r)
     return {"results": out}
+
+
+def breakcycles_replay(cases):
+    """Spec -> code replay for BreakCycles.tla: each case is a source graph (literal node table, forward references allowed)
+    and a sequence of labelled nodes; the real break_cycles is run and the target node table + registered keys recorded."""
+    from problog.formula import LogicFormula, LogicDAG
+    from problog.cycles import break_cycles
+    from problog.logic import Term
+    FK = 1000000
+    out = []
+    for c in cases:
+        rec = {"id": c["id"]}
+        try:
+            f = LogicFormula(auto_compact=False)
+            for i, n in enumerate(c["src"]):
+                if n["t"] == "atom":
+                    k = f.add_atom(n["id"], 0.5)
+                elif n["t"] == "conj":
+                    k = f.add_and([x for x in n["ch"]])
+                else:
+                    k = f.add_or([x for x in n["ch"]])
+                if k != i + 1:
+                    raise RuntimeError("source node %d stored under key %r" % (i + 1, k))
+            names = []
+            for j, q in enumerate(c["queries"]):
+                nm = Term("q%d" % j)
+                names.append(nm)
+                if q["phase"] == 1:
+                    f.add_name(nm, q["key"], f.LABEL_QUERY)
+                else:
+                    f.add_name(nm, q["key"], f.LABEL_EVIDENCE_POS)
+            dag = LogicDAG()
+            break_cycles(f, dag)
+            res = []
+            for j, (q, nm) in enumerate(zip(c["queries"], names)):
+                lab = dag.LABEL_QUERY if q["phase"] == 1 else dag.LABEL_EVIDENCE_POS
+                ks = [k for n2, k, l in dag.get_names_with_label() if n2 == nm and l == lab]
+                if len(ks) != 1:
+                    raise RuntimeError("name q%d registered %d times" % (j, len(ks)))
+                res.append(FK if ks[0] is None else ks[0])
+            rec["results"] = res
+            rec["nodes"] = _dump_nodes(dag)
+            rec["srcdump"] = _dump_nodes(f)
+        except Exception as e:       # noqa
+            rec["error"] = "%s: %s" % (type(e).__name__, e)
+        out.append(rec)
+    return {"results": out}
